@@ -5,6 +5,7 @@ props=[json.loads(l) for l in open('/verif/properties.jsonl')]
 T={
  "C01":("exploration","runtime monitoring: per-tx pool probe (big.Int share-value and constant-product oracles) on directed hostile workloads + pure-function probe of the price formulas"),
  "C02":("exploration","runtime monitoring: complete bank balance-sheet probe before/after every tx against an expected-delta reference model"),
+ "C11":("fault_enumeration","runtime monitoring by differential replicas: a journaled all-modules history re-executed in separate processes (later wall-clock, on-disk DB with application close/reopen at block boundaries incl. across process exit, other GOMAXPROCS/GOGC), byte comparison of app hashes, per-store KV digests, tx results and repeated genesis exports; host-clock straddle probes; -race build with concurrent query/simulate/checktx storm in the thorough tier"),
  "C14":("exploration","runtime monitoring: per-tx NFT state probe (all classes, tokens, owners, supplies, owner listings via the module's queries) against a reference ownership map, hostile actors"),
  "C15":("exploration","runtime monitoring: per-tx MT state probe incl. raw balance-store walk against an arbitrary-precision reference ledger, boundary/overflow amounts"),
  "C20":("exploration","runtime monitoring of the two generated code families in one process: exhaustive registry/descriptor walk (gogoproto registry vs protobuf-go registry, every .proto under proto/irismod, every Msg signer via the application's signing context) + descriptor-driven cross-family byte round trips; thorough tier under the checkptr sanitizer"),
@@ -13,7 +14,7 @@ T={
  "C19":("exploration","runtime monitoring: response-id uniqueness monitor, query read-back of every id (per block, periodic, final) and block-to-block raw store diff (append-only)"),
 }
 NA={}
-FIXES=["82dca39 (C02 double-hop swap settlement)","4b78834 (C17 oracle Max of all-negative responses)","c092f06 (C17 oracle Avg overflow)"]
+FIXES=["5aec873 (C11 MT export order)","b770505 (C11 oracle host clock)","82dca39 (C02 double-hop swap settlement)","4b78834 (C17 oracle Max of all-negative responses)","c092f06 (C17 oracle Avg overflow)"]
 checks=[]
 for p in props:
     i=p['id']
